@@ -356,6 +356,7 @@ func runSCIONServer(ctx context.Context, log *slog.Logger, mtrcs *scionServerMet
 						})
 						if err != nil {
 							log.LogAttrs(ctx, slog.LevelError, "failed to fetch DRKey level 2: host-AS", slog.Any("error", err))
+							continue
 						} else {
 							hostHostKey, err := scion.DeriveHostHostKey(hostASKey, srcAddr.String())
 							if err != nil {
